@@ -92,11 +92,15 @@ func (p *scnProgram) exec(t *f1testing.T, acts []string) {
 type gathered struct{ succ, fail, dropped, setupSucc, setupFail uint64 }
 
 func gatherCounts(reg *prometheus.Registry) gathered {
-	var g gathered
 	mfs, err := reg.Gather()
 	if err != nil {
 		panic(err)
 	}
+	return countFamilies(mfs)
+}
+
+func countFamilies(mfs []*dto.MetricFamily) gathered {
+	var g gathered
 	for _, mf := range mfs {
 		for _, m := range mf.GetMetric() {
 			res, stage := "", ""
